@@ -120,23 +120,26 @@ func genConstants() {
 	c.boolean("emptyRunsOnce", emptyRunsOnce, "`startPortScanEngine` runs one engine when there are no port ranges (pairs file)")
 
 	// ---- channel capacities: make(chan T, N) per function ----
-	capOf := func(file, recv, fn, varName string) int64 {
+	// the capacity of THE channel of element type `elem` that the function makes (identified by its
+	// element type, not by the name of the local variable, so that renaming a local is not a problem)
+	capOf := func(file, recv, fn, elem string) int64 {
 		f := parseFile(file)
 		fd := findFunc(f, recv, fn)
 		if fd == nil {
 			problem("%s: func %s.%s not found", file, recv, fn)
 			return -1
 		}
-		res := int64(-1)
+		res, count := int64(-1), 0
 		ast.Inspect(fd.Body, func(n ast.Node) bool {
-			as, ok := n.(*ast.AssignStmt)
-			if !ok || len(as.Lhs) != 1 || len(as.Rhs) != 1 || src(as.Lhs[0]) != varName {
+			call, ok := n.(*ast.CallExpr)
+			if !ok || src(call.Fun) != "make" || len(call.Args) == 0 {
 				return true
 			}
-			call, ok := as.Rhs[0].(*ast.CallExpr)
-			if !ok || src(call.Fun) != "make" {
+			ct, ok := call.Args[0].(*ast.ChanType)
+			if !ok || src(ct.Value) != elem {
 				return true
 			}
+			count++
 			if len(call.Args) == 1 {
 				res = 0
 			} else if v, ok := intLit(call.Args[1]); ok {
@@ -146,20 +149,21 @@ func genConstants() {
 			}
 			return true
 		})
-		if res == -1 {
-			problem("%s: %s.%s: make(chan) for %s not found", file, recv, fn, varName)
+		if count != 1 {
+			problem("%s: %s.%s: expected exactly one make(chan %s…), found %d", file, recv, fn, elem, count)
+			return -1
 		}
 		return res
 	}
-	c.nat("capPortsChan", capOf("pkg/scan/request.go", "portGenerator", "Ports", "out"), "buffer of the port channel")
-	c.nat("capIPsChan", capOf("pkg/scan/request.go", "ipGenerator", "IPs", "out"), "buffer of the address channel")
-	c.nat("capIPPortChan", capOf("pkg/scan/request.go", "ipPortGenerator", "GenerateRequests", "out"), "buffer of the ip×port request channel")
-	c.nat("capPacketGenChan", capOf("pkg/scan/generator.go", "packetGenerator", "Packets", "out"), "buffer of one packet worker's output")
-	c.nat("capSenderErrChan", capOf("pkg/packet/sender.go", "sender", "SendPackets", "errc"), "buffer of the sender's error channel")
-	c.nat("capReceiverErrChan", capOf("pkg/packet/receiver.go", "receiver", "ReceivePackets", "errc"), "buffer of the receiver's error channel")
-	c.nat("capMergeErrChan", capOf("pkg/scan/engine.go", "", "mergeErrChan", "out"), "buffer of the merged error channel")
-	c.nat("capEngineErrChan", capOf("pkg/scan/engine.go", "GenericEngine", "Start", "errc"), "buffer of the generic engine's error channel")
-	c.nat("capEngineDoneChan", capOf("pkg/scan/engine.go", "GenericEngine", "Start", "done"), "buffer of the generic engine's done channel (0 = unbuffered)")
+	c.nat("capPortsChan", capOf("pkg/scan/request.go", "portGenerator", "Ports", "PortGetter"), "buffer of the port channel")
+	c.nat("capIPsChan", capOf("pkg/scan/request.go", "ipGenerator", "IPs", "IPGetter"), "buffer of the address channel")
+	c.nat("capIPPortChan", capOf("pkg/scan/request.go", "ipPortGenerator", "GenerateRequests", "*Request"), "buffer of the ip×port request channel")
+	c.nat("capPacketGenChan", capOf("pkg/scan/generator.go", "packetGenerator", "Packets", "*packet.BufferData"), "buffer of one packet worker's output")
+	c.nat("capSenderErrChan", capOf("pkg/packet/sender.go", "sender", "SendPackets", "error"), "buffer of the sender's error channel")
+	c.nat("capReceiverErrChan", capOf("pkg/packet/receiver.go", "receiver", "ReceivePackets", "error"), "buffer of the receiver's error channel")
+	c.nat("capMergeErrChan", capOf("pkg/scan/engine.go", "", "mergeErrChan", "error"), "buffer of the merged error channel")
+	c.nat("capEngineErrChan", capOf("pkg/scan/engine.go", "GenericEngine", "Start", "error"), "buffer of the generic engine's error channel")
+	c.nat("capEngineDoneChan", capOf("pkg/scan/engine.go", "GenericEngine", "Start", "interface{}"), "buffer of the generic engine's done channel (0 = unbuffered)")
 
 	// ---- literal constants in command/config.go ----
 	cfg := parseFile("command/config.go")
